@@ -120,4 +120,46 @@ theorem roundtrip (a : Arr) (o : FromOpts) (idx : IIndex) (w : Bool) (harr : Arr
   · have h1 : a.shape.length > 1 := by omega
     simp [h1]
 
+/-- the same with a value mapping on the way back: every cell holds `m2[mapped input]` -/
+theorem roundtrip_mapped (a : Arr) (o : FromOpts) (idx : IIndex) (w : Bool) (harr : ArrOK a)
+    (h : fromArray a o = .ok (idx, w))
+    (hcounts : ∀ c, o.counts = some c → (c.map (·.1)).Nodup ∧ ∀ v ∈ a.data, v ∈ c.map (·.1))
+    (m2 : List (Int × Int)) (hm2 : m2 ≠ []) (dt : Option DT) (arr : Arr) (ht : toArray idx (some m2) dt = .ok arr) :
+    arr.shape = a.shape ∧ ∀ r < a.nrows, ∀ col ∈ a.cols, ∀ mv,
+      mapVal o.mapping (a.at r col) = .ok mv → arr.at r col = (lookup m2 mv).getD 0 := by
+  obtain ⟨es, hidx, hb⟩ := fromArray_built a o idx w harr h hcounts
+  have hsc : Scatterable idx := by rw [hidx]; exact built_scatterable a harr _ _ es hb
+  have hshape : idx.shape = a.shape := by rw [hidx]
+  have hnd : idx.ndim ≤ 2 := by
+    unfold IIndex.ndim; rw [hshape]; rcases harr.ndim with h | h <;> omega
+  obtain ⟨hs, hd⟩ := toArray_mapped idx hsc hnd m2 hm2 dt arr ht
+  refine ⟨hs.trans hshape, fun r hr col hcol mv hmv => ?_⟩
+  have hdense : denseAt idx r ((a.key mv col).drop 1) = mv := by
+    rw [hidx]; exact built_dense a o.mapping idx.common es hb a.shape r hr col hcol mv hmv
+  have hhi : (a.key mv col).drop 1 ∈ hiCells (idx.shape.drop 1) := by
+    rw [hshape]
+    unfold Arr.key Arr.cols Arr.twoD at *
+    rcases harr.ndim with h | h
+    · match hs' : a.shape, h with
+      | [n], _ => simp [hiCells]
+    · match hs' : a.shape, h with
+      | [n, k], _ =>
+        rw [hs'] at hcol
+        simp at hcol
+        simp [hiCells]
+        exact ⟨col, hcol, rfl⟩
+  have := hd r (by unfold IIndex.nrows; rw [hshape]; exact hr) _ hhi
+  rw [hdense] at this
+  rw [← this]
+  unfold Arr.at Arr.ncols ncolsOf colOf IIndex.ndim
+  rw [hs, hshape]
+  unfold Arr.key Arr.cols Arr.twoD at *
+  rcases harr.ndim with h | h
+  · have h1 : ¬ a.shape.length > 1 := by omega
+    simp only [h1, decide_false, Bool.false_eq_true, if_false, List.mem_singleton] at hcol ⊢
+    subst hcol
+    simp
+  · have h1 : a.shape.length > 1 := by omega
+    simp [h1]
+
 end Catii.IIdx
